@@ -301,4 +301,30 @@ example : cmapProbes (cmapDirs none [47, 112]) [72] =
       108, 101, 46, 103, 122],
      [47, 112, 47, 99, 109, 97, 112, 47, 72, 46, 112, 105, 99, 107, 108, 101, 46, 103, 122]] := by decide
 
+/-- **norm_canonical.** `normpath` of EVERY byte string yields canonical components: none is empty or `.`, none
+    contains a separator, and an absolute path keeps no `..` at all (a relative one only what could not be resolved). -/
+theorem C15_norm_canonical (p : Bytes) : ∀ c ∈ (norm p).2,
+    c ≠ [] ∧ c ≠ [46] ∧ (¬ 47 ∈ c) ∧ (isAbs p = true → c ≠ [46, 46]) :=
+  norm_canon p
+
+/-- What "directly inside" is worth: for an absolute directory `d`, the normal form of a path that is `DirectlyIn d`
+    is the normal form of `d` followed by one plain file name, and contains no `..` anywhere — it denotes an entry of
+    that directory and nothing else. -/
+theorem C15_directly_in_no_dotdot (d p : Bytes) (hd : isAbs d = true) (h : DirectlyIn d p) :
+    (norm p).1 = true ∧ ∀ c ∈ (norm p).2, c ≠ [46, 46] ∧ c ≠ [] ∧ ¬ 47 ∈ c := by
+  obtain ⟨f, hf, hn⟩ := h
+  rw [hn]
+  refine ⟨by simp [norm, hd], ?_⟩
+  intro c hc
+  simp only [List.mem_append, List.mem_singleton] at hc
+  rcases hc with hc | rfl
+  · obtain ⟨h1, _, h3, h4⟩ := norm_canon d c hc
+    exact ⟨h4 hd, h1, h3⟩
+  · exact ⟨hf.2.2.2, hf.2.1, hf.1⟩
+
+/-- Non-vacuity: `/a/./b//../c/` → `/a/c`; `../x/..` → `..`; `/../..` → `/`. -/
+example : norm [47, 97, 47, 46, 47, 98, 47, 47, 46, 46, 47, 99, 47] = (true, [[97], [99]]) ∧
+    norm [46, 46, 47, 120, 47, 46, 46] = (false, [[46, 46]]) ∧ norm [47, 46, 46, 47, 46, 46] = (true, []) := by
+  decide +kernel
+
 end PdfVerif.Props.C15
